@@ -165,6 +165,8 @@ def gen_session(seed):
     p_bad = rng.choice([0.0, 0.08, 0.15])
     p_reset = rng.choice([0.0, 0.06, 0.12])
     p_exec = rng.choice([0.0, 0.0, 0.08, 0.15])
+    p_pre = rng.choice([0.0, 0.0, 0.06, 0.12])
+    ncompiled = [0]
     sess = []
     for _ in range(n):
         x = rng.below(1000)
@@ -172,6 +174,14 @@ def gen_session(seed):
             sess.append(["bad", rng.below(len(BAD))])
         elif x < (p_bad + p_reset) * 1000:
             sess.append(["reset"])
+        elif (p_bad + p_reset + p_exec) * 1000 <= x < (p_bad + p_reset + p_exec + p_pre) * 1000:
+            # the host compiles a small program now (and keeps the function) / executes one it compiled earlier - possibly before
+            # failed snippets and resets that happened in between
+            if ncompiled[0] == 0 or rng.chance(0.4):
+                sess.append(["compile", g.id()])
+                ncompiled[0] += 1
+            else:
+                sess.append(["runc", rng.below(ncompiled[0])])
         elif x < (p_bad + p_reset + p_exec) * 1000:
             # the host calls a script function through the embedding API, sometimes with the wrong number of arguments
             which = rng.choice(["pf", "hf"])
@@ -348,6 +358,7 @@ def model(ir, faults):
     outs = []
     st = {}
     snap = {}
+    compiled = []         # what the host compiled and kept (survives resets: it is the host's, not the interpreter's)
     fsreads = {}          # reads of each module file so far: a property of the simulated file system, not of the interpreter
     fs_snap = {}
 
@@ -386,6 +397,15 @@ def model(ir, faults):
         if item[0] == "bad":
             probes.inc("compile_errors")
             outs.append({"kind": "compile", "events": []})
+            continue
+        if item[0] == "compile":
+            compiled.append(item[1])
+            probes.inc("host_compiles_for_later")
+            outs.append({"kind": "compiled", "events": []})
+            continue
+        if item[0] == "runc":
+            probes.inc("host_runs_function_compiled_earlier")
+            outs.append({"kind": "ok", "events": [[num(compiled[item[1]]), s("compiled-earlier")]]})
             continue
         if item[0] == "exec":
             k_, which, nargs = item[1], item[2], item[3]
@@ -635,6 +655,10 @@ def programs_of(ir):
             progs.append({"kind": "snippet", "source": BAD[item[1]]})
         elif item[0] == "exec":
             progs.append({"kind": "exec", "name": "%s%d" % (item[2], item[1]), "args": [3, 4, 5][:item[3]]})
+        elif item[0] == "compile":
+            progs.append({"kind": "compile", "source": 'print(("ev", %d, "compiled-earlier"));\n' % item[1]})
+        elif item[0] == "runc":
+            progs.append({"kind": "run", "slot": item[1]})
         else:
             progs.append({"kind": "snippet", "source": render_snip(item[1], i, stale.get(i, []))})
     fs = {"sm%s" % m: {"source": module_source(int(m), site, NVERSIONS),
@@ -654,6 +678,10 @@ def compare(exp, hist):
         a = progs[i]
         out = a["outcome"]
         if e["kind"] == "reset":
+            continue
+        if e["kind"] == "compiled":
+            if "compiled" not in out:
+                return {"class": "session", "msg": "host compile %d: expected a compiled function, got %s" % (i, json.dumps(out)[:200])}
             continue
         if e["kind"] == "nofn":
             if "no_such_function" not in out:
@@ -833,7 +861,7 @@ class C15:
                     res["scenario"] = dict(res["scenario"], force_gc_slice=True)     # keeps the slice while the case is minimised
                     return res
                 continue
-            if v is None and last_reset is not None and last_reset < len(progs) - 1:
+            if v is None and last_reset is not None and last_reset < len(progs) - 1 and not any(it[0] in ("compile", "runc") for it in ir["session"]):
                 # metamorphic: after a reset the interpreter must be indistinguishable from a new one
                 stats.inc("metamorphic_suffix_replays")
                 # crash points are addressed by (site, dynamic occurrence): renumber for the shorter history
